@@ -198,6 +198,8 @@ def features(case, obs=None):
         f.add("stderr:" + case["stderr"])
     if case.get("escape"):
         f.add("exception-leaves-the-block")
+    if '"$lit"' in canon(case["xs"]):
+        f.add("lenient-json-literal")
     for x in case["xs"]:
         if x.get("idle"):
             f.add("idle:hours" if x["idle"] >= 3600 * 1024 else "idle:>timeout")
@@ -280,12 +282,13 @@ class Conversations(Suite):
 
     def cases(self, ctx, budget):
         names = G.helper_names()
-        n = {"quick": 900, "thorough": 20000, "search": 4000}[budget]
+        n = {"quick": 850, "thorough": 20000, "search": 4000}[budget]
         out = list(G.directed(ctx.sub_rng("c15", "directed"), names))
         out += G.sequences(ctx.sub_rng("c15", "sequences"), names)
         out += G.label_matrix(ctx.sub_rng("c15", "labels"))
         out += G.environment_matrix()
         out += G.late_duplicates()
+        out += G.lenient_json_matrix()
         out += G.escaping_errors(ctx.sub_rng("c15", "escaping"), names)
         out += G.cases(ctx.sub_rng("c15", budget), n, names)
         m = G.falsy_matrix(ctx.sub_rng("c15", "matrix"))
@@ -304,6 +307,8 @@ class Conversations(Suite):
         sent, calls = client_sent(obs)
         if not sent or any(o and failed(o) for o in obs.values()):
             return None
+        if '"$lit"' in canon(case["xs"]):
+            return None   # literals outside the model's JSON (NaN, 1e400, lone surrogate escapes): carrier vs carrier vs script only
         ref = next(o for o in obs.values() if o)
         xs = [case["xs"][ci] for ci in calls]   # the exchanges that were played (one per request that was written)
         if len(ref["texts"]) != len(xs) or sum(len(t) for ts in ref["texts"] for t in ts) > MODEL_TEXT_LIMIT:
